@@ -19,17 +19,464 @@ Section E.
 
   Notation admm := (admmV V vint as_int getattr truthy oracle).
 
-  (* STATEMENTS (to be proved):
+  Notation gadmm := (g_run_admm_optimization V vnone vint as_int getattr truthy oracle).
+  Notation iters := (itersV V getattr truthy oracle).
+  Notation iter := (iterV V oracle).
+  Notation adapt := (adaptV V getattr truthy oracle).
+  Notation cnt := (count_fn V).
 
-  (* 1. the translated source is the model *)
-  Theorem g_run_admm_eq (args S : V) :
-    g_run_admm_optimization V vnone vint as_int getattr truthy oracle args S = admm args S.
+  (* ---------------------------------------------------------------- monad laws, pointwise *)
+
+  Lemma mbind_ext : forall (A B : Type) (m1 m2 : M V A) (f1 f2 : A -> M V B) log,
+    m1 log = m2 log -> (forall a log', f1 a log' = f2 a log') ->
+    mbind m1 f1 log = mbind m2 f2 log.
+  Proof.
+    intros A B m1 m2 f1 f2 log Hm Hf. unfold mbind. rewrite Hm.
+    destruct (m2 log) as [[a|e] log']; [apply Hf|reflexivity].
+  Qed.
+
+  Lemma mbind_mret_r : forall (A : Type) (m : M V A) log, mbind m (fun a => mret a) log = m log.
+  Proof. intros A m log. unfold mbind, mret. destruct (m log) as [[a|e] log']; reflexivity. Qed.
+
+  Lemma mbind_assoc : forall (A B C : Type) (m : M V A) (f : A -> M V B) (g : B -> M V C) log,
+    mbind (mbind m f) g log = mbind m (fun a => mbind (f a) g) log.
+  Proof.
+    intros A B C m f g log. unfold mbind.
+    destruct (m log) as [[a|e] log']; reflexivity.
+  Qed.
+
+  Lemma mbind_mret_l : forall (A B : Type) (a : A) (f : A -> M V B) log, mbind (mret a) f log = f a log.
+  Proof. reflexivity. Qed.
+
+  (* ---------------------------------------------------------------- 1. generated = model *)
+
+  Definition St : Type := (V * V * V * V * V)%type.   (* (z_old, x, z, u, args) *)
+  Definition st_x (st : St) : V := let '(_, x, _, _, _) := st in x.
+
+  (* one iteration of the loop, in the shape of the generated body *)
+  Definition stepG (S : V) (i : Z) (args x z u : V) : M V (St * bool) :=
+    xzu <<- iter S args u z ;;
+    let '(x1, z1, u1) := xzu in
+    if i >? 0 then
+      chk <<- call oracle f_chk [args; u1; x1; z1; z] ;;
+      if truthy (getattr chk "[0]") then mret ((z, x1, z1, u1, args), true)
+      else au <<- adapt args u1 chk ;; mret ((z, x1, z1, snd au, fst au), false)
+    else mret ((z, x1, z1, u1, args), false).
+
+  Lemma loop_eq : forall (S : V) (body : St -> Z -> M V (St * bool)),
+    (forall zo x z u args i log, body (zo, x, z, u, args) i log = stepG S i args x z u log) ->
+    forall n k zo x z u args log,
+      mbind (for_break body (map Z.of_nat (seq k n)) (zo, x, z, u, args)) (fun st => mret (st_x st)) log
+      = iters S n (Z.of_nat k) args x z u log.
+  Proof.
+    intros S body Hbody n.
+    induction n as [|n IHn]; intros k zo x z u args log.
+    - reflexivity.
+    - cbn [seq map for_break itersV].
+      rewrite mbind_assoc.
+      etransitivity.
+      { apply mbind_ext; [apply Hbody | intros a log'; reflexivity]. }
+      unfold stepG. rewrite mbind_assoc.
+      apply mbind_ext; [reflexivity|]. intros [[x1 z1] u1] log1.
+      destruct (Z.of_nat k >? 0).
+      + rewrite mbind_assoc.
+        apply mbind_ext; [reflexivity|]. intros chk log2.
+        destruct (truthy (getattr chk "[0]")).
+        * reflexivity.
+        * rewrite mbind_assoc.
+          apply mbind_ext; [reflexivity|]. intros [args' u'] log3.
+          rewrite mbind_mret_l. cbn [snd fst].
+          rewrite IHn. rewrite Nat2Z.inj_succ, <- Z.add_1_r. reflexivity.
+      + rewrite mbind_mret_l. cbn [snd fst].
+        rewrite IHn. rewrite Nat2Z.inj_succ, <- Z.add_1_r. reflexivity.
+  Qed.
+
+  (* ORIGINAL STATEMENT (an equality of functions  list (event V) -> res V * list (event V)):
+       Theorem g_run_admm_eq (args S : V) :
+         g_run_admm_optimization V vnone vint as_int getattr truthy oracle args S = admm args S.
+     The two sides are not convertible (a for_break over a list on one side, a structural recursion on the other), so
+     this needs functional extensionality, which the development does not assume.  It is stated pointwise, like
+     g_fit_stacked_data_eq in GenEquivML.v: the same result and the same log from every initial log. *)
+  Theorem g_run_admm_eq (args S : V) (log : list (event V)) :
+    g_run_admm_optimization V vnone vint as_int getattr truthy oracle args S log = admm args S log.
+  Proof.
+    unfold g_run_admm_optimization, admmV.
+    apply mbind_ext; [reflexivity|]. intros m log1.
+    apply mbind_ext; [reflexivity|]. intros m1 log2.
+    apply mbind_ext; [reflexivity|]. intros mm log3.
+    apply mbind_ext; [reflexivity|]. intros h log4.
+    apply mbind_ext; [reflexivity|]. intros size log5.
+    apply mbind_ext; [reflexivity|]. intros x0 log6.
+    apply mbind_ext; [reflexivity|]. intros z0 log7.
+    apply mbind_ext; [reflexivity|]. intros u0 log8.
+    apply mbind_ext; [reflexivity|]. intros lim log9.
+    match goal with |- mbind (for_break ?b _ _) _ _ = _ => set (body := b) end.
+    assert (Hbody : forall zo x z u args' i logb,
+               body (zo, x, z, u, args') i logb = stepG S i args' x z u logb).
+    { intros zo x z u args' i logb. unfold body, stepG, iterV.
+      repeat rewrite mbind_assoc.
+      apply mbind_ext; [reflexivity|]. intros x1 lg1. repeat rewrite mbind_assoc.
+      apply mbind_ext; [reflexivity|]. intros z1 lg2. repeat rewrite mbind_assoc.
+      apply mbind_ext; [reflexivity|]. intros u1 lg3.
+      rewrite mbind_mret_l.
+      destruct (i >? 0).
+      - apply mbind_ext; [reflexivity|]. intros chk lg4.
+        destruct (truthy (getattr chk "[0]")); [reflexivity|].
+        unfold adaptV.
+        destruct (truthy (getattr args' "rho_update")).
+        + repeat rewrite mbind_assoc.
+          apply mbind_ext; [reflexivity|]. intros nr lg5. repeat rewrite mbind_assoc.
+          apply mbind_ext; [reflexivity|]. intros sc lg6. repeat rewrite mbind_assoc.
+          apply mbind_ext; [reflexivity|]. intros a2 lg7. repeat rewrite mbind_assoc.
+          apply mbind_ext; [reflexivity|]. intros u2 lg8.
+          rewrite !mbind_mret_l.
+          destruct (truthy (getattr a2 "verbose")); reflexivity.
+        + rewrite !mbind_mret_l.
+          destruct (truthy (getattr args' "verbose")); reflexivity.
+      - destruct (truthy (getattr args' "verbose")); reflexivity. }
+    clearbody body.
+    etransitivity; [|apply (loop_eq S body Hbody (Z.to_nat lim) 0%nat vnone)].
+    unfold zrange.
+    apply mbind_ext; [reflexivity|].
+    intros [[[[zo x] z] u] args'] logc. reflexivity.
+  Qed.
+
+  (* ---------------------------------------------------------------- observations on logs *)
+
+  Lemma mbind_inv : forall (A B : Type) (m : M V A) (f : A -> M V B) log r log',
+    mbind m f log = (r, log') ->
+    (exists a log1, m log = (Ret a, log1) /\ f a log1 = (r, log')) \/
+    (exists e, m log = (Raise e, log') /\ r = Raise e).
+  Proof.
+    intros A B m f log r log' H. unfold mbind in H.
+    destruct (m log) as [[a|e] log1].
+    - left. exists a, log1. split; [reflexivity|exact H].
+    - right. exists e. inversion H; subst. split; reflexivity.
+  Qed.
+
+  Lemma call_inv : forall f a log x log1,
+    call oracle f a log = (x, log1) -> oracle log f a = x /\ log1 = (log ++ [Ev f a])%list.
+  Proof. intros f a log x log1 H. unfold call in H. inversion H; subst. split; reflexivity. Qed.
+
+  (* H : mbind m f log = (r, log')  becomes either  Hc : m log = (Ret a, l1), H : f a l1 = (r, log')
+     or  Hc : m log = (Raise e, log'), H : r = Raise e *)
+  Ltac bind_inv H a l1 e Hc :=
+    apply mbind_inv in H;
+    destruct H as [(a & l1 & Hc & H) | (e & Hc & H)].
+
+  (* Hc : call oracle f a log = (x, l1)  becomes  Hx : oracle log f a = x, and l1 is replaced by log ++ [Ev f a] *)
+  Ltac call_inv_in Hc Hx :=
+    apply call_inv in Hc;
+    let Hl := fresh "Hl" in
+    destruct Hc as [Hx Hl]; subst.
+
+  Lemma count_fn_app : forall f (l1 l2 : list (event V)), cnt f (l1 ++ l2) = (cnt f l1 + cnt f l2)%nat.
+  Proof. intros f l1 l2. unfold count_fn. rewrite filter_app, app_length. reflexivity. Qed.
+
+  (* walking through a log with c = the number of X updates seen so far: every convergence test comes after two *)
+  Fixpoint chk_ok (c : nat) (l : list (event V)) : bool :=
+    match l with
+    | [] => true
+    | e :: r => (if is_fn V f_chk e then (2 <=? c)%nat else true)
+                && chk_ok (if is_fn V f_x e then Datatypes.S c else c) r
+    end.
+
+  Lemma chk_ok_app : forall l1 l2 c,
+    chk_ok c (l1 ++ l2) = chk_ok c l1 && chk_ok (c + cnt f_x l1) l2.
+  Proof.
+    induction l1 as [|e l1 IHl]; intros l2 c; cbn [app chk_ok].
+    - unfold count_fn. cbn [filter length]. rewrite Nat.add_0_r. reflexivity.
+    - rewrite IHl, <- andb_assoc. unfold count_fn. cbn [filter].
+      destruct (is_fn V f_x e); cbn [length].
+      + rewrite Nat.add_succ_r. reflexivity.
+      + reflexivity.
+  Qed.
+
+  Lemma chk_ok_mono : forall l c c', (c <= c')%nat -> chk_ok c l = true -> chk_ok c' l = true.
+  Proof.
+    induction l as [|e l IHl]; intros c c' Hle H; cbn [chk_ok] in *; [reflexivity|].
+    apply andb_true_iff in H. destruct H as [H1 H2].
+    apply andb_true_iff. split.
+    - destruct (is_fn V f_chk e); [|reflexivity].
+      apply Nat.leb_le in H1. apply Nat.leb_le. lia.
+    - apply IHl with (c := if is_fn V f_x e then Datatypes.S c else c); [|exact H2].
+      destruct (is_fn V f_x e); lia.
+  Qed.
+
+  Lemma chk_ok_nochk : forall l, cnt f_chk l = 0%nat -> forall c, chk_ok c l = true.
+  Proof.
+    induction l as [|e l IHl]; intros H c; cbn [chk_ok]; [reflexivity|].
+    unfold count_fn in H. cbn [filter] in H.
+    destruct (is_fn V f_chk e); [discriminate H|].
+    apply IHl. exact H.
+  Qed.
+
+  Lemma chk_ok_decomp : forall pre a post c,
+    chk_ok c (pre ++ Ev f_chk a :: post) = true -> (2 <= c + cnt f_x pre)%nat.
+  Proof.
+    intros pre a post c H. rewrite chk_ok_app in H.
+    apply andb_true_iff in H. destruct H as [_ H].
+    cbn [chk_ok] in H.
+    change (is_fn V f_chk (Ev f_chk a)) with true in H.
+    apply andb_true_iff in H. destruct H as [H _].
+    apply Nat.leb_le in H. exact H.
+  Qed.
+
+  (* no X update, no U update, no convergence test *)
+  Definition quiet (l : list (event V)) : Prop :=
+    cnt f_x l = 0%nat /\ cnt f_u l = 0%nat /\ cnt f_chk l = 0%nat.
+
+  Lemma adapt_inv : forall args u chk log r log',
+    adapt args u chk log = (r, log') -> exists q, log' = (log ++ q)%list /\ quiet q.
+  Proof.
+    intros args u chk log r log' H. unfold adaptV in H.
+    destruct (truthy (getattr args "rho_update")).
+    - bind_inv H nr l1 e1 Hc1; call_inv_in Hc1 Hx1;
+        [|eexists; split; [reflexivity|repeat split]].
+      bind_inv H sc l2 e2 Hc2; call_inv_in Hc2 Hx2;
+        [|eexists; split; [rewrite <- !app_assoc; reflexivity|repeat split]].
+      bind_inv H a2 l3 e3 Hc3; call_inv_in Hc3 Hx3;
+        [|eexists; split; [rewrite <- !app_assoc; reflexivity|repeat split]].
+      bind_inv H u2 l4 e4 Hc4; call_inv_in Hc4 Hx4;
+        [|eexists; split; [rewrite <- !app_assoc; reflexivity|repeat split]].
+      unfold mret in H. inversion H; subst.
+      eexists; split; [rewrite <- !app_assoc; reflexivity|repeat split].
+    - unfold mret in H. inversion H; subst.
+      exists []. split; [symmetry; apply app_nil_r|repeat split].
+  Qed.
+
+  Lemma iter_inv : forall S args u z log r log1,
+    iter S args u z log = (r, log1) ->
+    (exists x1 z1 u1, r = Ret (x1, z1, u1) /\
+       log1 = (log ++ [Ev f_x [args; u; z; S]; Ev f_z [args; u; x1]; Ev f_u [u; x1; z1]])%list) \/
+    (exists e ext, r = Raise e /\ log1 = (log ++ ext)%list /\ cnt f_x ext = 1%nat /\ cnt f_chk ext = 0%nat).
+  Proof.
+    intros S args u z log r log1 H. unfold iterV in H.
+    bind_inv H x1 l1 e1 Hc1; call_inv_in Hc1 Hx1;
+      [|right; eexists; eexists; split; [reflexivity|]; split; [reflexivity|split; reflexivity]].
+    bind_inv H z1 l2 e2 Hc2; call_inv_in Hc2 Hx2;
+      [|right; eexists; eexists; split; [reflexivity|]; split; [rewrite <- !app_assoc; reflexivity|split; reflexivity]].
+    bind_inv H u1 l3 e3 Hc3; call_inv_in Hc3 Hx3;
+      [|right; eexists; eexists; split; [reflexivity|]; split; [rewrite <- !app_assoc; reflexivity|split; reflexivity]].
+    unfold mret in H. inversion H; subst.
+    left. exists x1, z1, u1. split; [reflexivity|]. rewrite <- !app_assoc. reflexivity.
+  Qed.
+
+  (* one iteration: what it appends (ext), and either the run stops there or it goes on from a new state *)
+  Lemma step_inv : forall S n it args x z u log r log',
+    iters S (Datatypes.S n) it args x z u log = (r, log') ->
+    exists ext,
+      (cnt f_x ext <= 1)%nat /\ chk_ok (if it >? 0 then 1 else 0)%nat ext = true /\
+      ((log' = (log ++ ext)%list /\
+        forall x', r = Ret x' ->
+          (exists pre post u0 z0, ext = (pre ++ Ev f_u [u0; x'; z0] :: post)%list /\
+                                  cnt f_u post = 0%nat /\ cnt f_x post = 0%nat) /\
+          (exists pre args' u0 z0 zo c,
+              log' = (pre ++ [Ev f_chk [args'; u0; x'; z0; zo]])%list /\
+              oracle pre f_chk [args'; u0; x'; z0; zo] = Ret c /\ truthy (getattr c "[0]") = true))
+       \/
+       (exists args' x1 z1 u1,
+          cnt f_x ext = 1%nat /\
+          (exists pre post u0, ext = (pre ++ Ev f_u [u0; x1; z1] :: post)%list /\
+                               cnt f_u post = 0%nat /\ cnt f_x post = 0%nat) /\
+          iters S n (it + 1) args' x1 z1 u1 (log ++ ext)%list = (r, log'))).
+  Proof.
+    intros S n it args x z u log r log' H.
+    cbn [itersV] in H.
+    bind_inv H xzu log1 e0 Hc.
+    - apply iter_inv in Hc.
+      destruct Hc as [(x1 & z1 & u1 & Hr & Hl) | (e' & ext & Hr & _)]; [|discriminate Hr].
+      inversion Hr; subst xzu log1. clear Hr.
+      cbv beta iota in H.
+      destruct (it >? 0).
+      + bind_inv H chk log2 e2 Hc2; call_inv_in Hc2 Hx2.
+        * destruct (truthy (getattr chk "[0]")) eqn:Ht.
+          -- unfold mret in H. inversion H; subst r log'. clear H.
+             exists [Ev f_x [args; u; z; S]; Ev f_z [args; u; x1]; Ev f_u [u; x1; z1];
+                     Ev f_chk [args; u1; x1; z1; z]].
+             split; [cbn; lia|]. split; [reflexivity|]. left.
+             split; [rewrite <- !app_assoc; reflexivity|].
+             intros x' Hx'. inversion Hx'; subst x'. split.
+             ++ exists [Ev f_x [args; u; z; S]; Ev f_z [args; u; x1]], [Ev f_chk [args; u1; x1; z1; z]], u, z1.
+                repeat split.
+             ++ exists (log ++ [Ev f_x [args; u; z; S]; Ev f_z [args; u; x1]; Ev f_u [u; x1; z1]])%list,
+                       args, u1, z1, z, chk.
+                split; [reflexivity|]. split; [exact Hx2|exact Ht].
+          -- bind_inv H au log3 e3 Hc3; apply adapt_inv in Hc3; destruct Hc3 as (q & Hl3 & Hq1 & Hq2 & Hq3).
+             ++ exists ([Ev f_x [args; u; z; S]; Ev f_z [args; u; x1]; Ev f_u [u; x1; z1];
+                         Ev f_chk [args; u1; x1; z1; z]] ++ q)%list.
+                split; [rewrite count_fn_app, Hq1; cbn; lia|].
+                split; [rewrite chk_ok_app, (chk_ok_nochk q Hq3); reflexivity|].
+                right. exists (fst au), x1, z1, (snd au).
+                split; [rewrite count_fn_app, Hq1; reflexivity|].
+                split.
+                ** exists [Ev f_x [args; u; z; S]; Ev f_z [args; u; x1]],
+                          (Ev f_chk [args; u1; x1; z1; z] :: q), u.
+                   split; [reflexivity|].
+                   split.
+                   --- change (Ev f_chk [args; u1; x1; z1; z] :: q)
+                         with ([Ev f_chk [args; u1; x1; z1; z]] ++ q)%list.
+                       rewrite count_fn_app, Hq2. reflexivity.
+                   --- change (Ev f_chk [args; u1; x1; z1; z] :: q)
+                         with ([Ev f_chk [args; u1; x1; z1; z]] ++ q)%list.
+                       rewrite count_fn_app, Hq1. reflexivity.
+                ** rewrite <- H. f_equal. subst log3. rewrite <- !app_assoc. reflexivity.
+             ++ exists ([Ev f_x [args; u; z; S]; Ev f_z [args; u; x1]; Ev f_u [u; x1; z1];
+                         Ev f_chk [args; u1; x1; z1; z]] ++ q)%list.
+                split; [rewrite count_fn_app, Hq1; cbn; lia|].
+                split; [rewrite chk_ok_app, (chk_ok_nochk q Hq3); reflexivity|].
+                left. split; [subst log'; rewrite <- !app_assoc; reflexivity|].
+                intros x' Hx'. subst r. discriminate Hx'.
+        * exists [Ev f_x [args; u; z; S]; Ev f_z [args; u; x1]; Ev f_u [u; x1; z1];
+                  Ev f_chk [args; u1; x1; z1; z]].
+          split; [cbn; lia|]. split; [reflexivity|]. left.
+          split; [rewrite <- !app_assoc; reflexivity|].
+          intros x' Hx'. discriminate Hx'.
+      + exists [Ev f_x [args; u; z; S]; Ev f_z [args; u; x1]; Ev f_u [u; x1; z1]].
+        split; [cbn; lia|]. split; [reflexivity|].
+        right. exists args, x1, z1, u1.
+        split; [reflexivity|]. split; [|exact H].
+        exists [Ev f_x [args; u; z; S]; Ev f_z [args; u; x1]], [], u. repeat split.
+    - apply iter_inv in Hc.
+      destruct Hc as [(x1 & z1 & u1 & Hr & _) | (e' & ext & Hr & Hl & Hcx & Hcc)]; [discriminate Hr|].
+      exists ext. split; [lia|]. split; [apply chk_ok_nochk; exact Hcc|].
+      left. split; [exact Hl|].
+      intros x' Hx'. subst r. discriminate Hx'.
+  Qed.
+
+  (* ---------------------------------------------------------------- n iterations *)
+
+  Lemma iters_bound : forall S n it args x z u log r log',
+    iters S n it args x z u log = (r, log') ->
+    exists ext, log' = (log ++ ext)%list /\ (cnt f_x ext <= n)%nat.
+  Proof.
+    intros S n. induction n as [|n IHn]; intros it args x z u log r log' H.
+    - cbn [itersV] in H. unfold mret in H. inversion H; subst.
+      exists []. split; [symmetry; apply app_nil_r|cbn; lia].
+    - apply step_inv in H.
+      destruct H as (ext & Hc & _ & [(Hl & _) | (args' & x1 & z1 & u1 & Hc1 & _ & Hrec)]).
+      + exists ext. split; [exact Hl|lia].
+      + apply IHn in Hrec. destruct Hrec as (ext2 & Hl2 & Hc2).
+        exists (ext ++ ext2)%list. rewrite app_assoc. split; [exact Hl2|].
+        rewrite count_fn_app. lia.
+  Qed.
+
+  Lemma iters_chk : forall S n it args x z u log r log',
+    0 <= it ->
+    iters S n it args x z u log = (r, log') ->
+    exists ext, log' = (log ++ ext)%list /\ chk_ok (if it >? 0 then 1 else 0)%nat ext = true.
+  Proof.
+    intros S n. induction n as [|n IHn]; intros it args x z u log r log' Hit H.
+    - cbn [itersV] in H. unfold mret in H. inversion H; subst.
+      exists []. split; [symmetry; apply app_nil_r|reflexivity].
+    - apply step_inv in H.
+      destruct H as (ext & _ & Hk & [(Hl & _) | (args' & x1 & z1 & u1 & Hc1 & _ & Hrec)]).
+      + exists ext. split; [exact Hl|exact Hk].
+      + apply IHn in Hrec; [|lia]. destruct Hrec as (ext2 & Hl2 & Hk2).
+        replace (it + 1 >? 0) with true in Hk2 by (symmetry; apply Z.gtb_lt; lia).
+        exists (ext ++ ext2)%list. rewrite app_assoc. split; [exact Hl2|].
+        rewrite chk_ok_app, Hk, Hc1. cbn [andb].
+        apply chk_ok_mono with (c := 1%nat); [lia|exact Hk2].
+  Qed.
+
+  Lemma iters_last : forall S n it args x z u log x' log',
+    iters S n it args x z u log = (Ret x', log') ->
+    exists ext, log' = (log ++ ext)%list /\
+      ((x' = x /\ ext = []) \/
+       exists pre post u0 z0, ext = (pre ++ Ev f_u [u0; x'; z0] :: post)%list /\
+                              cnt f_u post = 0%nat /\ cnt f_x post = 0%nat).
+  Proof.
+    intros S n. induction n as [|n IHn]; intros it args x z u log x' log' H.
+    - cbn [itersV] in H. unfold mret in H. inversion H; subst.
+      exists []. split; [symmetry; apply app_nil_r|]. left. split; reflexivity.
+    - apply step_inv in H.
+      destruct H as (ext & _ & _ & [(Hl & Hstop) | (args' & x1 & z1 & u1 & _ & Hu & Hrec)]).
+      + exists ext. split; [exact Hl|]. right.
+        destruct (Hstop x' eq_refl) as [Hlast _]. exact Hlast.
+      + destruct Hu as (pre & post & u0 & Hext & Hp1 & Hp2).
+        apply IHn in Hrec.
+        destruct Hrec as (ext2 & Hl2 & [(Hxx & He2) | (pre2 & post2 & u2 & z2 & Hext2 & Hq1 & Hq2)]).
+        * subst x' ext2. rewrite app_nil_r in Hl2.
+          exists ext. split; [exact Hl2|]. right.
+          exists pre, post, u0, z1. split; [exact Hext|]. split; [exact Hp1|exact Hp2].
+        * exists (ext ++ ext2)%list. rewrite app_assoc. split; [exact Hl2|]. right.
+          exists (ext ++ pre2)%list, post2, u2, z2.
+          split; [rewrite Hext2, <- app_assoc; reflexivity|]. split; [exact Hq1|exact Hq2].
+  Qed.
+
+  Lemma iters_early : forall S n it args x z u log x' log',
+    iters S n it args x z u log = (Ret x', log') ->
+    exists ext, log' = (log ++ ext)%list /\
+      (cnt f_x ext = n \/
+       exists pre args' u0 z0 zo c,
+         log' = (pre ++ [Ev f_chk [args'; u0; x'; z0; zo]])%list /\
+         oracle pre f_chk [args'; u0; x'; z0; zo] = Ret c /\ truthy (getattr c "[0]") = true).
+  Proof.
+    intros S n. induction n as [|n IHn]; intros it args x z u log x' log' H.
+    - cbn [itersV] in H. unfold mret in H. inversion H; subst.
+      exists []. split; [symmetry; apply app_nil_r|]. left. reflexivity.
+    - apply step_inv in H.
+      destruct H as (ext & _ & _ & [(Hl & Hstop) | (args' & x1 & z1 & u1 & Hc1 & _ & Hrec)]).
+      + exists ext. split; [exact Hl|]. right.
+        destruct (Hstop x' eq_refl) as [_ Hconv]. exact Hconv.
+      + apply IHn in Hrec.
+        destruct Hrec as (ext2 & Hl2 & [Hc2 | Hconv]).
+        * exists (ext ++ ext2)%list. rewrite app_assoc. split; [exact Hl2|]. left.
+          rewrite count_fn_app. lia.
+        * exists (ext ++ ext2)%list. rewrite app_assoc. split; [exact Hl2|]. right. exact Hconv.
+  Qed.
+
+  (* ---------------------------------------------------------------- the whole function *)
+
+  (* the set-up (p) makes no X update and no convergence test; then either it raised or the loop runs *)
+  Lemma admm_inv : forall args S log r log',
+    admm args S log = (r, log') ->
+    exists p,
+      ((log' = (log ++ p)%list /\ exists e, r = Raise e) \/
+       (exists lim x0 z0 u0, as_int (getattr args "max_iterations") = Some lim /\
+                             iters S (Z.to_nat lim) 0 args x0 z0 u0 (log ++ p)%list = (r, log'))) /\
+      cnt f_x p = 0%nat /\ cnt f_chk p = 0%nat.
+  Proof.
+    intros args S log r log' H. unfold admmV in H.
+    Ltac raised :=
+      eexists; split;
+      [left; split; [rewrite <- ?app_assoc; cbn [app]; reflexivity|eexists; reflexivity]
+      |split; reflexivity].
+    bind_inv H m l1 e1 Hc1; call_inv_in Hc1 Hx1; [|raised].
+    bind_inv H m1 l2 e2 Hc2; call_inv_in Hc2 Hx2; [|raised].
+    bind_inv H mm l3 e3 Hc3; call_inv_in Hc3 Hx3; [|raised].
+    bind_inv H h l4 e4 Hc4; call_inv_in Hc4 Hx4; [|raised].
+    bind_inv H size l5 e5 Hc5; call_inv_in Hc5 Hx5; [|raised].
+    bind_inv H x0 l6 e6 Hc6; call_inv_in Hc6 Hx6; [|raised].
+    bind_inv H z0 l7 e7 Hc7; call_inv_in Hc7 Hx7; [|raised].
+    bind_inv H u0 l8 e8 Hc8; call_inv_in Hc8 Hx8; [|raised].
+    unfold need_int in H.
+    destruct (as_int (getattr args "max_iterations")) as [lim|] eqn:Hlim.
+    - rewrite mbind_mret_l in H.
+      eexists. split; [|split].
+      + right. exists lim, x0, z0, u0. split; [reflexivity|].
+        rewrite <- H. f_equal. rewrite <- !app_assoc. cbn [app]. reflexivity.
+      + reflexivity.
+      + reflexivity.
+    - unfold mbind, mraise in H. inversion H; subst. raised.
+  Qed.
 
   (* 2. the log only grows, and at most max_iterations X updates are made (whether the run returns or raises) *)
   Theorem admm_x_updates_bounded (args S : V) (log : list (event V)) (lim : Z) :
     as_int (getattr args "max_iterations") = Some lim ->
     exists ext, snd (admm args S log) = (log ++ ext)%list /\
                 (count_fn V f_x ext <= Z.to_nat lim)%nat.
+  Proof.
+    intros Hlim.
+    destruct (admm args S log) as [r log'] eqn:H. cbn [snd].
+    apply admm_inv in H.
+    destruct H as (p & [(Hl & _) | (lim0 & x0 & z0 & u0 & Hlim0 & Hit)] & Hpx & _).
+    - exists p. split; [exact Hl|lia].
+    - rewrite Hlim in Hlim0. inversion Hlim0; subst lim0.
+      apply iters_bound in Hit. destruct Hit as (ext2 & Hl2 & Hc2).
+      exists (p ++ ext2)%list. rewrite app_assoc. split; [exact Hl2|].
+      rewrite count_fn_app. lia.
+  Qed.
 
   (* 3. a run that returns x after at least one iteration returns the X of its last iteration: the last U update
         (hence the last iteration) was made with exactly that x, and the last Z update produced from it *)
@@ -39,6 +486,17 @@ Section E.
        (count_fn V f_x ext = 0%nat \/
         exists pre post u z, ext = (pre ++ Ev f_u [u; x; z] :: post)%list /\
                              count_fn V f_u post = 0%nat /\ count_fn V f_x post = 0%nat)).
+  Proof.
+    intros H.
+    apply admm_inv in H.
+    destruct H as (p & [(_ & e & He) | (lim0 & x0 & z0 & u0 & _ & Hit)] & Hpx & _); [discriminate He|].
+    apply iters_last in Hit.
+    destruct Hit as (ext2 & Hl2 & [(Hxx & He2) | (pre2 & post2 & u2 & z2 & Hext2 & Hq1 & Hq2)]).
+    - subst ext2. exists p. rewrite app_nil_r in Hl2. split; [exact Hl2|]. left. exact Hpx.
+    - exists (p ++ ext2)%list. rewrite app_assoc. split; [exact Hl2|]. right.
+      exists (p ++ pre2)%list, post2, u2, z2.
+      split; [rewrite Hext2, <- app_assoc; reflexivity|]. split; [exact Hq1|exact Hq2].
+  Qed.
 
   (* 4. early stop only on convergence: a run that returns having made fewer X updates than its budget ends with a
         check_convergence call on the returned iterate [args'; u; x; z; z_old] that the oracle answered with a value
@@ -51,10 +509,41 @@ Section E.
         exists pre args' u z z_old r,
           log' = (pre ++ [Ev f_chk [args'; u; x; z; z_old]])%list /\
           oracle pre f_chk [args'; u; x; z; z_old] = Ret r /\ truthy (getattr r "[0]") = true)).
+  Proof.
+    intros Hlim H.
+    apply admm_inv in H.
+    destruct H as (p & [(_ & e & He) | (lim0 & x0 & z0 & u0 & Hlim0 & Hit)] & Hpx & _); [discriminate He|].
+    rewrite Hlim in Hlim0. inversion Hlim0; subst lim0.
+    apply iters_early in Hit.
+    destruct Hit as (ext2 & Hl2 & [Hc2 | Hconv]).
+    - exists (p ++ ext2)%list. rewrite app_assoc. split; [exact Hl2|]. left.
+      rewrite count_fn_app. lia.
+    - exists (p ++ ext2)%list. rewrite app_assoc. split; [exact Hl2|]. right. exact Hconv.
+  Qed.
 
   (* 5. no convergence test in the first iteration: every check_convergence call is preceded by at least two X updates *)
   Theorem admm_check_after_two (args S : V) (log : list (event V)) :
     forall pre a post, snd (admm args S log) = (log ++ pre ++ Ev f_chk a :: post)%list ->
                        (2 <= count_fn V f_x pre)%nat.
-  *)
+  Proof.
+    intros pre a post Hsnd.
+    destruct (admm args S log) as [r log'] eqn:H. cbn [snd] in Hsnd.
+    apply admm_inv in H.
+    destruct H as (p & [(Hl & _) | (lim0 & x0 & z0 & u0 & _ & Hit)] & Hpx & Hpc).
+    - rewrite Hl in Hsnd. apply app_inv_head in Hsnd.
+      assert (Hk : chk_ok 0 p = true) by (apply chk_ok_nochk; exact Hpc).
+      rewrite Hsnd in Hk. apply chk_ok_decomp in Hk. lia.
+    - apply iters_chk in Hit; [|lia]. destruct Hit as (ext2 & Hl2 & Hk2).
+      change (0 >? 0) with false in Hk2. cbv iota in Hk2.
+      rewrite Hl2, <- app_assoc in Hsnd. apply app_inv_head in Hsnd.
+      assert (Hk : chk_ok 0 (p ++ ext2) = true).
+      { rewrite chk_ok_app, (chk_ok_nochk p Hpc), Hpx. exact Hk2. }
+      rewrite Hsnd in Hk. apply chk_ok_decomp in Hk. lia.
+  Qed.
 End E.
+
+Print Assumptions g_run_admm_eq.
+Print Assumptions admm_x_updates_bounded.
+Print Assumptions admm_returns_last_x.
+Print Assumptions admm_early_stop_converged.
+Print Assumptions admm_check_after_two.
